@@ -246,3 +246,12 @@ M('c16_gromacs_key_no_temperature', 'C16', (TR, "                'edr_file': edr
 M('c16_vasprun_key_ignores_kwargs', 'C16', (TR, "                {**kwargs, 'constant_lattice': constant_lattice}, sort_keys=True\n", "                {'constant_lattice': constant_lattice}, sort_keys=True\n"))
 M('c16_cache_written_before_wrap', 'C16', (TR, "            metadata={'temperature': temperature},\n        )\n        obj.to_positions()\n\n        if cache:\n            obj.to_cache(cache)\n", "            metadata={'temperature': temperature},\n        )\n        if cache:\n            obj.to_cache(cache)\n        obj.coords = obj.coords + 1e-9\n        obj.to_positions()\n"))
 M('c16_to_cache_protocol_text', 'C16', (TR, "            pickle.dump(self, f)\n", "            pickle.dump(self, f)\n            if len(self) == 5:\n                f.truncate(f.tell() - 1)\n"))
+# ---- C17 -------------------------------------------------------------------------------------
+SH = 'shape.py'
+M('c17_revert_F11', 'C17', (SH, "            close -= np.round(close - sym_coords)\n", "            offsets = np.digitize(close - sym_coords, bins=[0.5, -0.4999999]) - 1\n            close += offsets\n"))
+M('c17_forward_op', 'C17', (SH, "            inversed = op.inverse.operate_multi(close)\n", "            inversed = op.operate_multi(close)\n"))
+M('c17_double_radius', 'C17', (SH, "            sel = dists < radius\n", "            sel = dists <= 1.02 * radius\n"))
+M('c17_fold_no_scale', 'C17', (SH, "            positions = np.mod(positions, 1 / scale_arr) * scale_arr\n", "            positions = np.mod(positions, 1 / scale_arr)\n"))
+M('c17_skip_identity_dup', 'C17', (SH, "            cluster.append(inversed)\n", "            if len(cluster) < 40:\n                cluster.append(inversed)\n"))
+M('c17_offsets_two_axes', 'C17', (SH, "            close -= np.round(close - sym_coords)\n", "            close[:, :2] -= np.round(close - sym_coords)[:, :2]\n"))
+M('c17_select_by_frac_norm', 'C17', (SH, "            dists = lattice.get_all_distances(sym_coords, positions)\n", "            dists = lattice.get_all_distances(np.mod(sym_coords, 1), positions) if abs(lattice.gamma - 90) < 1e-6 else lattice.get_all_distances(sym_coords, positions) * 1.01\n"))
